@@ -70,8 +70,9 @@ struct Gen {
     std::vector<long> used;
     for (int i = 0; i < nl; i++) {
       Recipe r; int tries = 0; std::shared_ptr<Link> l;
-      do { r = pool_recipe(c.master, g.below(pool), many_ch); if (r.trim && (prop == "C20" || prop == "C19" || prop == "C03" || prop == "C13" || prop == "C12")) r.trim += r.trim & 1; /* half rate is toggled in these histories: keep the cut on the even grid */ if (p_bs64 > 0 && g.chance(p_bs64)) { r.bs64 = 1; r.cut = 0; r.trim = 0; r.sig = g.chance(0.75) ? 6 : 1; r.n = std::max<int64_t>(r.n, 3000); } l = get_link(r); } while ((!l->ok || l->ref_err || r.n * r.ch > budget) && ++tries < 20);
+      do { r = pool_recipe(c.master, g.below(pool), many_ch); if (r.trim && (prop == "C20" || prop == "C19" || prop == "C03" || prop == "C13" || prop == "C12" || prop == "C17")) r.trim += r.trim & 1; /* half rate is toggled in these histories: keep the cut on the even grid */ if (p_bs64 > 0 && g.chance(p_bs64)) { r.bs64 = 1; r.cut = 0; r.trim = 0; r.sig = g.chance(0.75) ? 6 : 1; r.n = std::max<int64_t>(r.n, 3000); } l = get_link(r); } while ((!l->ok || l->ref_err || r.n * r.ch > budget) && ++tries < 20);
       if (!l->ok || l->ref_err) continue;
+      if (nl >= 3 && i > 0 && i + 1 < nl && g.chance(0.15)) { Recipe z = r; z.n = (int64_t)g.below(3); z.cut = z.trim = z.bs64 = 0; auto lz = get_link(z); if (lz->ok && !lz->ref_err) { r = z; l = lz; } }   // a zero/one/two-sample link between two others
       budget -= r.n * r.ch; if (budget < 2000) budget = 2000;
       Rec &lr = p.add("link"); r.to(lr);
       int pol = (int)g.below(6); int k = pol == 1 ? (int)g.range(1, 12) : pol == 4 ? (int)g.range(1, 6) : pol == 5 ? (int)g.range(200, 3000) : 4;
@@ -118,7 +119,7 @@ struct Gen {
     bool many = prop == "C17" || prop == "C09" || prop == "C03";
     choose_stream(prop == "C12" ? 3 : 5, many, prop == "C20" ? 0.12 : 0);
     if (sr.nlinks == 0) return p;
-    double pseek = (prop == "C10") ? 0.5 : (prop == "C03" || prop == "C13") ? 0.75 : (prop == "C20") ? 0.85 : 1.0;
+    double pseek = (prop == "C10") ? 0.5 : (prop == "C03" || prop == "C13") ? 0.75 : (prop == "C20" || prop == "C17") ? 0.85 : 1.0;
     choose_file(pseek);
     bool seekable = p.first("file")->i("seekable") != 0;
     if (mode == "damaged") gen_pfaults();
@@ -129,6 +130,7 @@ struct Gen {
     else if (prop == "C20") gen_halfrate(seekable);
     else if (prop == "C12" || (prop == "C13" && mode == "iofault")) gen_iofault();
     else if (mode == "damaged") gen_anyops(seekable);
+    else if (prop == "C17" && !seekable) { if (g.chance(0.2)) op("halfrate").set("flag", 1); linear_read(true); op("read_int").set("word", 2).set("sgned", 1).set("be", 0).set("len", 64).set("rep", 1); }
     else if (prop == "C08" && sr.total > 0 && g.chance(thorough ? 0.5 : 0.2)) gen_targets();
     else gen_seeks(prop == "C08" ? 0.2 : 0.08, prop == "C17" ? 0.8 : 0.25);
     if (prop == "C13" && g.chance(0.3)) { auto ops = p.all("op"); size_t cut = 1 + g.below(ops.size()); size_t n = 0; Plan q; for (auto &r : p.recs) { if (r.type == "op" && n++ >= cut) continue; q.recs.push_back(r); } p = q; }
@@ -143,6 +145,7 @@ struct Gen {
       if (u < 0.06) { op("raw_seek").set("a", sr.ps.pages.empty() ? 0 : sr.ps.pages.back().off + (int64_t)g.below(20)); }                 // history: raw seek into the last page
       else if (u < 0.10) { op("pcm_seek").set("a", sr.total); read_op(0, 1); }                                                      // history: at EOF
       else if (u < 0.14) { op("tells"); continue; }
+      else if (u < 0.16 && prop == "C17") { op("halfrate").set("flag", (int64_t)g.below(2)); continue; }
       else if (u < 0.17) { op("info").set("i", (int64_t)g.range(-2, sr.nlinks + 1)); continue; }
       else seek_op("", true, oor);
       int nr = (int)g.range(0, 3); for (int j = 0; j < nr; j++) read_op(p_int);
